@@ -32,7 +32,9 @@ def cached(suite, tier, seed, fn):
     key = f"{C.repo_digest()[:16]}-{machinery_digest()[:16]}"
     d = os.path.join(CACHE, key)
     os.makedirs(d, exist_ok=True)
-    path = os.path.join(d, f"{suite}-{tier}-{seed}.json")
+    # experiment switches that change what the generators produce get their own cache entries
+    exp = "".join(f"-{k[6:].lower()}" for k in ("VERIF_FORCE_BIG",) if os.environ.get(k))
+    path = os.path.join(d, f"{suite}-{tier}-{seed}{exp}.json")
     lock = open(path + ".lock", "w")
     fcntl.flock(lock, fcntl.LOCK_EX)
     try:
